@@ -133,6 +133,11 @@ func TestVF_C11_Broker(t *testing.T) {
 	brokerInfo := protocol.MetadataBroker{NodeID: 1, Host: "127.0.0.1", Port: 19092}
 	env := c11Env()
 	inconclusive := ""
+	defer func() {
+		if inconclusive != "" {
+			fmt.Println("VF-INCONCLUSIVE:", inconclusive)
+		}
+	}()
 
 	rapid.Check(t, func(t *rapid.T) {
 		if inconclusive != "" {
@@ -159,7 +164,7 @@ func TestVF_C11_Broker(t *testing.T) {
 			st.Class("class:" + p.Class)
 			st.Class("outcome:" + out.Kind)
 			if out.Kind == "timeout" {
-				inconclusive = fmt.Sprintf("no answer to %s within the 30s guard (%v)", p.Name(), out.Err)
+				inconclusive = fmt.Sprintf("no answer to %s (%s) within the 30s guard (%v) shape=%s frame=%x", p.Name(), p.Class, out.Err, p.Shape, p.Frame)
 				t.Skip(inconclusive)
 			}
 			if handled && hres.panicked != nil {
@@ -210,7 +215,6 @@ func TestVF_C11_Broker(t *testing.T) {
 		}
 	})
 	if inconclusive != "" {
-		fmt.Println("VF-INCONCLUSIVE:", inconclusive)
 		t.Fatalf("inconclusive: %s", inconclusive)
 	}
 }
